@@ -214,6 +214,110 @@ static lzma_ret drive(lzma_stream *s, const uint8_t *data, size_t n, uint64_t se
 	return r;
 }
 
+// `upd` op: like drive(), but after every completed flush the filter chain is changed with lzma_filters_update():
+// after LZMA_SYNC_FLUSH only lc/lp/pb of the LZMA2 options (next triple of `trip`), after LZMA_FULL_FLUSH /
+// LZMA_FULL_BARRIER the whole chain (next of `chains`). flushmode: 1 sync, 2 full flush, 3 full barrier, 4 sync/full mixed.
+// Every change is logged as "<total_in>:<S|F|I>:<chain index>:<lc/lp/pb byte now in force>:<ret of lzma_filters_update>".
+typedef struct { uint64_t off; char kind; int idx; unsigned props; int ret; } upd_event;
+
+static unsigned chain_props(const rel_chain *c)
+{
+	int i = 0;
+	while (c->f[i + 1].id != LZMA_VLI_UNKNOWN) ++i;
+	const lzma_options_lzma *o = c->f[i].options;
+	return (o->pb * 5 + o->lp) * 9 + o->lc;
+}
+
+static void chain_copy(rel_chain *dst, const rel_chain *src)
+{
+	*dst = *src;
+	for (int i = 0; i < LZMA_FILTERS_MAX; ++i) {
+		if (src->f[i].options == &src->lzma[i]) dst->f[i].options = &dst->lzma[i];
+		else if (src->f[i].options == &src->bcj[i]) dst->f[i].options = &dst->bcj[i];
+		else if (src->f[i].options == &src->delta[i]) dst->f[i].options = &dst->delta[i];
+	}
+}
+
+static lzma_ret drive_upd(lzma_stream *s, const uint8_t *data, size_t n, uint64_t seed, int flushmode,
+		const rel_chain *chains, int nch, const unsigned (*trip)[3], int ntrip,
+		uint8_t **out_p, size_t *out_len, upd_event *ev, int *nev, int maxev)
+{
+	uint64_t st = seed * 0x9E3779B97F4A7C15ull + 1234577;
+	if (st == 0) st = 1;
+	size_t cap = n + n / 2 + (1u << 16);
+	uint8_t *out = malloc(cap);
+	size_t in_given = 0, out_used = 0;
+	// pieces sized so that a handful of flushes happen whatever the input size
+	const size_t maxin = 1 + n / (3 + (size_t)(xs64(&st) % 14)), maxout = (xs64(&st) & 1) ? 61 : 50021;
+	s->next_in = data; s->avail_in = 0;
+	s->next_out = out; s->avail_out = 0;
+	lzma_action action = LZMA_RUN;
+	rel_chain cur;
+	chain_copy(&cur, &chains[0]);
+	int k = 0, kt = 0;
+	*nev = 0;
+	ev[(*nev)++] = (upd_event){ 0, 'I', 0, chain_props(&cur), 0 };
+	if (flushmode != 1 && nch > 1 && (xs64(&st) & 3) == 0) {
+		// change the whole chain before any input has been given
+		k = 1;
+		chain_copy(&cur, &chains[k % nch]);
+		const lzma_ret ur = lzma_filters_update(s, cur.f);
+		ev[(*nev)++] = (upd_event){ 0, 'F', k % nch, chain_props(&cur), (int)ur };
+	}
+	lzma_ret r = LZMA_OK;
+	for (unsigned long iter = 0; iter < 100000000ul; ++iter) {
+		if (action == LZMA_RUN && s->avail_in == 0) {
+			if (in_given == n) {
+				action = LZMA_FINISH;
+			} else {
+				size_t c = 1 + (size_t)(xs64(&st) % maxin);
+				if (c > n - in_given) c = n - in_given;
+				s->next_in = data + in_given; s->avail_in = c; in_given += c;
+				if (*nev < maxev - 1 && (xs64(&st) % 3) == 0) {
+					const int m = flushmode == 4 ? ((xs64(&st) & 1) ? 1 : 2) : flushmode;
+					action = m == 1 ? LZMA_SYNC_FLUSH : m == 2 ? LZMA_FULL_FLUSH : LZMA_FULL_BARRIER;
+				}
+			}
+		}
+		if (s->avail_out == 0) {
+			if (cap - out_used < (1u << 16)) {
+				cap = cap * 2;
+				out = realloc(out, cap);
+			}
+			size_t c = 1 + (size_t)(xs64(&st) % maxout);
+			s->next_out = out + out_used; s->avail_out = c;
+		}
+		const size_t before = s->avail_out;
+		r = lzma_code(s, action);
+		out_used += before - s->avail_out;
+		if (r == LZMA_STREAM_END) {
+			if (action == LZMA_FINISH) { r = LZMA_OK; break; }
+			// the flush is complete: change the options
+			if (action == LZMA_SYNC_FLUSH) {
+				if (ntrip > 0) {
+					int i = 0;
+					while (cur.f[i + 1].id != LZMA_VLI_UNKNOWN) ++i;
+					lzma_options_lzma *o = cur.f[i].options;
+					o->lc = trip[kt % ntrip][0]; o->lp = trip[kt % ntrip][1]; o->pb = trip[kt % ntrip][2];
+					++kt;
+					const lzma_ret ur = lzma_filters_update(s, cur.f);
+					ev[(*nev)++] = (upd_event){ s->total_in, 'S', k % nch, chain_props(&cur), (int)ur };
+				}
+			} else if (nch > 1) {
+				++k;
+				chain_copy(&cur, &chains[k % nch]);
+				const lzma_ret ur = lzma_filters_update(s, cur.f);
+				ev[(*nev)++] = (upd_event){ s->total_in, 'F', k % nch, chain_props(&cur), (int)ur };
+			}
+			action = LZMA_RUN;
+			continue;
+		}
+		if (r != LZMA_OK) break;
+	}
+	*out_p = out; *out_len = out_used;
+	return r;
+}
+
 bool c02_rel(hp_line *l)
 {
 	const char *op = l->tok[0];
@@ -291,6 +395,52 @@ bool c02_rel(hp_line *l)
 		lzma_end(&s);
 		printf("%d ", (int)r);
 		if (r == LZMA_OK) { hp_put_hex(out, out_len); putchar(' '); rt_stream(out, out_len, data, n); printf(" %u", flushes); } else printf("- - 0");
+		putchar('\n');
+		free(out); free(data);
+
+	} else if (!strcmp(op, "upd") && nt >= 9) {
+		// upd <st|mt> <check> <threads> <blocksize> <seed> <flushmode> <hex> <chain0...> / <chain1...> ... [= P:lc:lp:pb ...]
+		const bool mt = l->tok[1][0] == 'm';
+		const lzma_check check = (lzma_check)hp_u64(l->tok[2]);
+		const uint64_t seed = hp_u64(l->tok[5]);
+		const int flushmode = (int)hp_u64(l->tok[6]);
+		static rel_chain chains[6];
+		unsigned trip[8][3];
+		int nch = 0, ntrip = 0, i = 8;
+		bool okp = true;
+		while (i < nt && okp && strcmp(l->tok[i], "=") != 0) {
+			int j = i;
+			while (j < nt && strcmp(l->tok[j], "/") != 0 && strcmp(l->tok[j], "=") != 0) ++j;
+			if (nch >= 6 || j == i) { okp = false; break; }
+			hp_line sub = *l;
+			sub.ntok = j;
+			okp = rel_parse_chain(&sub, i, &chains[nch++]);
+			i = (j < nt && !strcmp(l->tok[j], "/")) ? j + 1 : j;
+		}
+		if (okp && i < nt && !strcmp(l->tok[i], "="))
+			for (++i; i < nt && ntrip < 8; ++i, ++ntrip)
+				if (sscanf(l->tok[i], "P:%u:%u:%u", &trip[ntrip][0], &trip[ntrip][1], &trip[ntrip][2]) != 3) okp = false;
+		if (!okp || nch == 0) { printf("bad-op\n"); return true; }
+		size_t n; uint8_t *data = hp_hex(l->tok[7], &n);
+		lzma_stream s = LZMA_STREAM_INIT;
+		lzma_ret r;
+		if (mt) {
+			lzma_mt o = { .flags = 0, .threads = (uint32_t)hp_u64(l->tok[3]), .block_size = hp_u64(l->tok[4]),
+					.timeout = 0, .filters = chains[0].f, .check = check };
+			r = lzma_stream_encoder_mt(&s, &o);
+		} else {
+			r = lzma_stream_encoder(&s, chains[0].f, check);
+		}
+		if (r != LZMA_OK) { printf("%d - - -\n", (int)r); free(data); return true; }
+		uint8_t *out = NULL; size_t out_len = 0;
+		upd_event ev[64]; int nev = 0;
+		r = drive_upd(&s, data, n, seed, flushmode, chains, nch, (const unsigned (*)[3])trip, ntrip, &out, &out_len, ev, &nev, 64);
+		lzma_end(&s);
+		printf("%d ", (int)r);
+		if (r == LZMA_OK) { hp_put_hex(out, out_len); putchar(' '); rt_stream(out, out_len, data, n); } else printf("- -");
+		putchar(' ');
+		for (int e = 0; e < nev; ++e)
+			printf("%s%" PRIu64 ":%c:%d:%u:%d", e ? "," : "", ev[e].off, ev[e].kind, ev[e].idx, ev[e].props, ev[e].ret);
 		putchar('\n');
 		free(out); free(data);
 
